@@ -32,7 +32,7 @@ RULE = ("check: base contents = valid extensions for EVERY combination of dimens
         "keys; values of every JSON type), extra top-level keys and stale dictionaries of classes that are not "
         "valid for the shape; x no corruption, single corruptions of every kind of the property (drop field / "
         "sub-dictionary; add / remove one or two values at the front, middle or end; duplicate a key into every other "
-        "classification; slice dim; shape length; shape entry incl. zero and negative; affine shape and entry type; "
+        "classification; a per-slice key planted with an empty / one-element value in every */slices dictionary; slice dim; shape length; shape entry incl. zero and negative; affine shape and entry type; "
         "version; list replaced by a str/dict of the same len()), random double corruptions plus one double for EVERY "
         "unordered pair of corruption kinds (thorough: exhaustive singles, capped-exhaustive doubles over 32 bases); "
         "separate malformed stream: random sub-values replaced by wild JSON values, kept when inside the model's domain; "
@@ -388,6 +388,7 @@ AFFINE_KINDS = ['3x4', '4x3', '5x5', '4x4x1', 'ragged', 'empty', 'none', 'scalar
                 'str-entry', 'none-entry']
 VERSION_VALUES = ['swap', 0.7, 1, '0.6', None, [0.6], True, 0.55]
 SLICE_DIM_VALUES = [-1, 3, 7, None, 0, 1, 2, True, '1', 1.5, [1]]
+PLANT_VALUES = [[], '', {}, [0], None]       # per-slice key planted with NO values (and with one / a scalar)
 
 
 def enumerate_ops(c):
@@ -419,6 +420,10 @@ def enumerate_ops(c):
                 if (b2, s2) != (b, s) and class_dict(c, b2, s2) is not None:
                     ops.append(['dup_key', b, s, k, b2, s2, 'fit'])
                     ops.append(['dup_key', b, s, k, b2, s2, 'same'])
+    for b in ('global', 'time', 'vector'):
+        if class_dict(c, b, 'slices') is not None:
+            for v in PLANT_VALUES:
+                ops.append(['plant_slice', b, v])
     for v in SLICE_DIM_VALUES:
         if 'dcmmeta_slice_dim' in c and not same(c['dcmmeta_slice_dim'], v):
             ops.append(['slice_dim', v])
@@ -476,6 +481,11 @@ def apply_op(c, op):
             if not isinstance(v, list):
                 raise NotApplicable()
             c[op[1]][op[2]][op[3]] = ('x' * len(v)) if op[4] == 'str' else dict(('m%d' % i, x) for i, x in enumerate(v))
+        elif kind == 'plant_slice':
+            d = c[op[1]]['slices']
+            if not isinstance(d, dict) or 'planted' in d:
+                raise NotApplicable()
+            d['planted'] = copy.deepcopy(op[2])
         elif kind == 'dup_key':
             _, b, s, k, b2, s2, mode = op
             v = c[b][s][k]
@@ -525,7 +535,7 @@ def apply_op(c, op):
 
 
 OP_KINDS = {'drop_field': 'drop-field', 'drop_sub': 'drop-sub', 'add_value': 'add-value', 'remove_value': 'remove-value',
-            'value_type': 'value-type', 'dup_key': 'dup-key', 'slice_dim': 'slice-dim', 'shape_len': 'shape-len',
+            'value_type': 'value-type', 'plant_slice': 'plant-slice', 'dup_key': 'dup-key', 'slice_dim': 'slice-dim', 'shape_len': 'shape-len',
             'shape_entry': 'shape-entry', 'affine': 'affine', 'version': 'version'}
 
 
@@ -594,6 +604,21 @@ def gap_cases(rng):
     c = _plain([2, 2, 3, 2], 2)
     c['time']['slices']['k'] = {'a': 1, 'b': 2, 'c': 3}
     out.append(('gap:sized', c))
+    return out
+
+
+def noslice_cases():
+    """slice_dim None and a key in a */slices dictionary whose value holds NO values ([], '', {}): per-slice data
+    without a slice dimension all the same -> must be rejected.  Every valid slices class of every dimensionality."""
+    out = []
+    for shape in ([2, 2, 3], [2, 2, 3, 2], [2, 2, 2, 3, 2], [2, 2, 2, 1, 2]):
+        for b in ('global', 'time', 'vector'):
+            for i, v in enumerate(([], '', {})):
+                c = _plain(shape, None, 0.5 if i % 2 else 0.6)
+                if b not in c:
+                    continue
+                c[b]['slices']['SliceLocation'] = copy.deepcopy(v)
+                out.append(c)
     return out
 
 
@@ -826,6 +851,9 @@ class Check:
                             have.add(h)
                             cases.append(k)
                             break
+        # no slice dimension but a per-slice key with an EMPTY value, in every slices class of every dimensionality
+        for c in noslice_cases():
+            cases.append(Check._mk('single:plant-slice', c))
         # the known blind spots (each run must print the five KNOWN-FINDING lines of N14)
         for kind, c in gap_cases(rng):
             cases.append(Check._mk(kind, c))
@@ -972,7 +1000,7 @@ class Gate:
             if nd == 5 and rng.random() < 0.3:
                 shape[3] = 1
             exts = []
-            pattern = rng.choice(['v', 'c', 'cv', 'vc', 'cc', 'vv', 'fvc', 'cfv', 'ccv', '', 'f', 'cvc', 'w', 'wv'])
+            pattern = rng.choice(['v', 'c', 'cv', 'vc', 'cc', 'vv', 'fvc', 'cfv', 'ccv', '', 'f', 'cvc', 'w', 'wv', 'p', 'pv', 'vp'])
             ok = True
             for ch in pattern:
                 b = gen_base(rng, nd=rng.choice([3, 4, 5]), nkeys=rng.choice([0, 1, 2]), dims=(1, 2, 3))
@@ -993,6 +1021,10 @@ class Gate:
                         ok = False
                         break
                     exts.append({'code': 0, 'content': c, 'inject': rng.choice(['raw', 'object']) if isinstance(c, dict) else 'raw'})
+                elif ch == 'p':
+                    # no slice dimension, one per-slice key that holds no value at all
+                    c = copy.deepcopy(rng.choice(noslice_cases()))
+                    exts.append({'code': 0, 'content': c, 'inject': rng.choice(['raw', 'object'])})
                 elif ch == 'w':
                     c = wild_mutate(rng, b)
                     # from_runtime_repr(None): nibabel reads an object of None as "no object yet" and
